@@ -99,7 +99,12 @@ pub fn make_builder_cb(
                 let d: Vec<&str> = deps.iter().map(|x| x.as_str()).collect();
                 if *typed && typed_ok(ctx, reads, writes) {
                     let v = AddTyped { b: &mut b, ctx, sid: *sid, hint: *hint, name, deps: &d };
-                    pick_fam(ctl_ty(ctx, reads.first().copied()), ctl_ty(ctx, writes.first().copied()), v);
+                    if *expect {
+                        // the optional forms: same declared access, nothing created at setup
+                        pick_fam_opt(ctl_ty(ctx, reads.first().copied()), ctl_ty(ctx, writes.first().copied()), v);
+                    } else {
+                        pick_fam(ctl_ty(ctx, reads.first().copied()), ctl_ty(ctx, writes.first().copied()), v);
+                    }
                 } else {
                     let mut s = DynSys::new(ctx, *sid, reads, writes, *hint);
                     s.acc.expect = *expect;
